@@ -39,6 +39,9 @@ REQUIRED_THEOREMS = [
     "parse_off_bridge", "off_record_bridge", "parse_obj_bridge", "obj_round_trip_source", "off_round_trip_source_actual",
     "off_round_trip_source_partial", "obj_reads_reference_source", "off_reads_reference_source_actual",
     "obj_save_load_pipeline_source", "tet_save_load_pipeline_source", "xyz_save_load_pipeline_source",
+    # round 6: parse_field + the while-loop of import_medit read from the source, bridged to the line-by-line automaton
+    "import_medit_bridge", "parse_field_bridge", "medit_round_trip_source", "medit_reads_reference_source", "medit_save_load_pipeline_source",
+    "load_raw_source", "load_mesh_source", "save_content_source",
 ]
 TRUSTED = [
     "Lean 4.33.0 kernel; axioms ⊆ {propext, Classical.choice, Quot.sound}",
@@ -76,8 +79,8 @@ SOURCE_MAP = {
     _IO + "obj.py::parse_vertex": "translated: whole body evaluated for a token without '/' (Generated.C04R.parseVertex, parse_obj_bridge)",
     _IO + "obj.py::parse_obj_data": "translated: whole body: line loop with its branch bodies, then the loop over the face records (Generated.C04R.objLine / objCorner / parseObj, parse_obj_bridge); vn / vt / corners with a texture or normal index leave the domain; also the prefix table (obj_rows_bridge)",
     _IO + "obj.py::export_obj": "translated: whole body, statement by statement (Generated.C04W.exportObj, export_obj_bridge), under 'no uv_coords / normals attribute'",
-    _IO + "medit.py::parse_field": "modelled: readField (the translator pins `[int(u.strip()) - 1 for u in line][:nelem]` textually)",
-    _IO + "medit.py::import_medit": "translated: (keyword, container, arity) dispatch table only (Generated.C04Medit.rows, medit_rows_bridge); the deque loop is hand-modelled (stepMedit)",
+    _IO + "medit.py::parse_field": "translated: whole body (Generated.C04R.fieldRecord / parseField, parse_field_bridge, import_medit_bridge)",
+    _IO + "medit.py::import_medit": "translated: whole body: the `while data:` loop with every branch (Generated.C04R.meditLoop / importMedit, import_medit_bridge: equal to the automaton stepMedit); also the (keyword, container, arity) table (medit_rows_bridge)",
     _IO + "medit.py::count_cells": "translated: whole body (Generated.C04W.countCells, count_cells_source)",
     _IO + "medit.py::count_faces": "translated: whole body (Generated.C04W.countFaces, count_faces_source)",
     _IO + "medit.py::export_medit": "translated: whole body, statement by statement (Generated.C04W.exportMedit, export_medit_bridge)",
@@ -109,8 +112,8 @@ SOURCE_MAP = {
     _IO + "io.py::read_by_extension": "translated: extension table + lookup shape (Generated.C04D.readRows, dispatch_bridge)",
     _IO + "io.py::write_by_extension": "translated: extension table + lookup shape (Generated.C04D.writeRows, dispatch_bridge)",
     "mouette/mesh/mesh.py::_instanciate_raw_mesh_data": "translated: whole body (Generated.C04D.instantiate, load_class_source, load_dim_override_source)",
-    "mouette/mesh/mesh.py::load": "modelled: the three statements are pinned textually by the translator (read_by_extension, raw, _instanciate_raw_mesh_data)",
-    "mouette/mesh/mesh.py::save": "translated: ignore_elements guards and how containers are emptied (Generated.C04Save, save_guards_bridge); re-wrap and write call pinned textually",
+    "mouette/mesh/mesh.py::load": "translated: whole body (Generated.C04G.load, load_raw_source, load_mesh_source)",
+    "mouette/mesh/mesh.py::save": "translated: ignore_elements guards and how containers are emptied (Generated.C04Save, save_guards_bridge) + statement order adjacency / re-wrap / ignore block / write (Generated.C04G.saveContent, save_content_source); the geogram adjacency guard itself is not modelled",
     "mouette/mesh/mesh.py::from_arrays": "out-of-scope: not on the save/load path (construction from arrays: C01/C02)",
     "mouette/mesh/mesh.py::copy": "out-of-scope: not on the save/load path",
     "mouette/mesh/mesh.py::merge": "out-of-scope: not on the save/load path",
@@ -563,6 +566,13 @@ def _run(case):
             try:
                 raw = M.mesh.load(path, raw=True)
                 R["raw"] = snapshot(raw, with_attrs=(fmt == "geogram_ascii"))
+                if fmt == "geogram_ascii" and hasattr(raw, "cell_faces") and len(raw.cells) > 0:
+                    # the cell adjacency stored in the file (attribute adjacent_cell of the cell facets) as the loader hands it back
+                    try:
+                        oc = raw.cell_faces.get_attribute("opposite_cell") if raw.cell_faces.has_attribute("opposite_cell") else None
+                        R["adj_loaded"] = None if oc is None else [int(oc[i]) for i in range(sum(len(c) for c in raw.cells))]
+                    except Exception as e:  # noqa
+                        R["adj_loaded"] = f"{type(e).__name__}: {e}"
             except Exception as e:  # noqa
                 R["raw_err"] = _err(e); R["raw_exc"] = f"{type(e).__name__}: {e}"
             R["stage"] = "load"
@@ -1046,6 +1056,14 @@ def _oracle(case):
         add(kind, asp or tag, f"{'save then load' if case['sc'] == 'rt' else 'load of a reference-written file'} (.{fmt}): {what}")
     if ds:
         return out
+    # (2b) geogram stores the cell adjacency as an attribute of the cell facets (save() computes it for volumes): like every attribute
+    # of the attribute-carrying format its values come back unchanged (the loader exposes it as `opposite_cell` on cell_faces)
+    if case["sc"] == "rt" and fmt == "geogram_ascii" and "adj" in R and "cells" not in case["ign"] and R["raw"]["C"] and "adj_loaded" in R:
+        if R["adj_loaded"] != R["adj"]:
+            k = next((i for i in range(min(len(R["adj"]), len(R["adj_loaded"]))) if R["adj"][i] != R["adj_loaded"][i]), None) \
+                if isinstance(R["adj_loaded"], list) else None
+            add("cell-adjacency", "loaded", "save then load (.geogram_ascii): the adjacent cell of the cell facets written in the file does not come back "
+                f"(written {str(R['adj'])[:80]}, loaded {str(R['adj_loaded'])[:80]}" + (f", first difference at cell facet {k}" if k is not None else "") + ")")
     # (3) the loaded object
     want = IO.implied_dim({"C": exp["C"], "F": exp["F"], "E": R["raw"]["E"]})
     if "cls_err" in R:
@@ -1148,6 +1166,7 @@ def _medit_rows():
     import ast
     tree, _ = T.load("mouette/mesh/io/medit.py")
     fn = T.find_def(tree, "import_medit")
+    fn = CT.Norm().visit(__import__("copy").deepcopy(fn))        # `"End" == line` = `line == "End"` …
     loop = [n for n in ast.walk(fn) if isinstance(n, ast.While)]
     if len(loop) != 1: raise T.TranslateError("import_medit: expected exactly one while loop")
     rows, others = [], []
@@ -1157,7 +1176,7 @@ def _medit_rows():
     node = chain[0]
     while True:
         t = node.test
-        if not (isinstance(t, ast.Compare) and isinstance(t.left, ast.Name) and t.left.id == "line" and len(t.ops) == 1
+        if not (isinstance(t, ast.Compare) and isinstance(t.left, ast.Name) and len(t.ops) == 1
                 and isinstance(t.ops[0], ast.Eq) and isinstance(t.comparators[0], ast.Constant) and isinstance(t.comparators[0].value, str)):
             raise T.TranslateError("import_medit: branch test is not `line == \"Keyword\"`: " + ast.dump(t)[:80])
         kw = t.comparators[0].value
@@ -1165,7 +1184,7 @@ def _medit_rows():
         if calls:
             if len(calls) != 1: raise T.TranslateError(f"branch {kw}: several parse_field calls")
             a = calls[0].args
-            if not (len(a) == 4 and isinstance(a[1], ast.Attribute) and isinstance(a[1].value, ast.Name) and a[1].value.id == "obj"
+            if not (len(a) == 4 and isinstance(a[1], ast.Attribute) and isinstance(a[1].value, ast.Name)
                     and isinstance(a[3], ast.Constant) and isinstance(a[3].value, int)):
                 raise T.TranslateError(f"branch {kw}: parse_field arguments not recognised")
             if a[1].attr not in ("edges", "faces", "cells"): raise T.TranslateError(f"branch {kw}: container {a[1].attr}")
@@ -1177,11 +1196,11 @@ def _medit_rows():
         else: raise T.TranslateError("import_medit: trailing else branch")
     if sorted(others) != ["End", "Vertices"]:
         raise T.TranslateError(f"import_medit: branches without parse_field are {others}, expected End and Vertices")
-    # parse_field itself: `[int(u.strip())-1 for u in line][:nelem]`
-    pf = T.find_def(tree, "parse_field")
-    src = ast.unparse(pf)
-    if "[int(u.strip()) - 1 for u in line][:nelem]" not in src or "container.append(d)" not in src:
-        raise T.TranslateError("parse_field: body not recognised: " + src[:200])
+    # parse_field itself (`[int(u) - 1 for u in line][:nelem]`, `container.append`): its shape is checked by the body compiler
+    CT.compile_medit_reader(tree)
+    # the branches are on distinct keywords: their order is immaterial
+    canon = ["Edges", "Triangles", "Quadrilaterals", "Tetrahedra", "Hexahedra"]
+    rows.sort(key=lambda r: canon.index(r[0]) if r[0] in canon else len(canon))
     return rows
 
 
@@ -1346,6 +1365,11 @@ def translate():
         T.write_generated("C04Writers", txt)
         return detail
 
+    def site_glue():
+        txt, detail = CT.glue()
+        T.write_generated("C04Glue", txt)
+        return detail
+
     def site_dispatch():
         txt, detail = CT.dispatch()
         T.write_generated("C04Dispatch", txt)
@@ -1354,10 +1378,11 @@ def translate():
         txt, detail = CT.readers()
         T.write_generated("C04Readers", txt)
         return detail
-    return [T.site("mouette/mesh/io/{xyz,tet,off,obj}.py: reader bodies import_xyz, parse_tet_data, parse_off_data, parse_vertex + parse_obj_data", _with_stub("C04Readers", site_readers))] + \
+    return [T.site("mouette/mesh/io/{xyz,tet,off,obj}.py: reader bodies import_xyz, parse_tet_data, parse_off_data, parse_vertex + parse_obj_data, parse_field + import_medit", _with_stub("C04Readers", site_readers))] + \
            [T.site("mouette/mesh/io/{off,tet,xyz,medit,obj,stl}.py: writer bodies export_off, export_tet, export_xyz, export_medit (+count_faces, "
                    "count_cells), export_obj, Binary_STL_Writer.{__init__,_write_header,_write_triangle,write} read statement by statement", _with_stub("C04Writers", site_writers)),
             T.site("mouette/mesh/io/io.py: read_by_extension / write_by_extension tables; mesh.py: load, _instanciate_raw_mesh_data", _with_stub("C04Dispatch", site_dispatch)),
+            T.site("mouette/mesh/mesh.py: load and save statement by statement (raw switch, read -> instantiate; adjacency, re-wrap, ignore block, write)", _with_stub("C04Glue", site_glue)),
             T.site("mouette/mesh/io/medit.py: import_medit dispatch (keyword, container, arity)", _with_stub("C04Medit", site)),
             T.site("mesh_attributes.py: Attribute.Type.from_string/to_string/byte_size; obj.py: parse_obj_data line-prefix dispatch", _with_stub("C04Tables", site2)),
             T.site("mouette/mesh/mesh.py: save() ignore_elements guards (keyword, containers, replace vs clear-shared)", _with_stub("C04Save", site3))]
